@@ -12,7 +12,7 @@ import math
 
 import numpy as np
 
-from .. import cards, yrun
+from .. import cards, rel, yrun
 from ..engine import digest
 from ..ref import ref_basis, ref_conv
 
@@ -221,7 +221,7 @@ def execute(st):
         res = esf.get_result()
         elems = cf.Combiner(esf).collect_elems()
     except Exception as e:
-        info = yrun.classify_exception(e)
+        info = rel.note_failure(e, {k: v for k, v in cell.items() if k != "theory"}, [name])  # anything but an accepted exclusion becomes a violation (engine)
         return {"violations": [], "nontrivial": False, "outcome": f"excluded:{info['exc']}", "transitions": 1, "info": {"n_excluded_by_exception": 1}}
     g, d, lg = cards.grid(st["grid"])
     basis = ref_basis.RefBasis(g, d, lg)
